@@ -21,6 +21,7 @@ import (
 	"time"
 
 	"github.com/mattn/anko/ast"
+	"github.com/mattn/anko/core"
 	"github.com/mattn/anko/env"
 	_ "github.com/mattn/anko/packages"
 	"github.com/mattn/anko/parser"
@@ -531,6 +532,41 @@ func isolation(res *common.Result) {
 		if irrun.RenderGo(vb) != "\"undef\"" {
 			res.Violate(common.Violation{Class: "environments-share-bindings/import", Case: "A: " + srcA + " || B: " + srcB,
 				Detail: "environment B reads " + irrun.RenderGo(vb) + " through its imported module: a binding of the environment that imported the package first"})
+		}
+	}
+	// the imported table is the importing environment's own copy whatever is done
+	// with the result of the import expression: written through directly, handed to
+	// a function, kept inside a container (no assignment to a name in between, which
+	// would copy a scope anyway)
+	forms := []struct{ name, a string }{
+		{"member-assign on the import expression", "import(\"PKG\").zleak = \"patched\""},
+		{"existing member overwritten on the import expression", "import(\"PKG\").MEMBER = \"patched\""},
+		{"import handed to a function", "func patch(m) { m.zleak = \"patched\"; m.MEMBER = \"patched\" }\npatch(import(\"PKG\"))"},
+		{"import kept in a map", "h = {\"k\": import(\"PKG\")}\nh.k.zleak = \"patched\"\nh.k.MEMBER = \"patched\""},
+		{"import kept in a list", "l = [import(\"PKG\")]\nl[0].zleak = \"patched\"\nl[0].MEMBER = \"patched\""},
+		{"import returned by a function", "func get() { return import(\"PKG\") }\nget().zleak = \"patched\"\nget().MEMBER = \"patched\""},
+	}
+	pkgs := []struct{ pkg, member string }{{"strings", "ToUpper"}, {"sort", "Ints"}, {"bytes", "NewBufferString"}, {"math", "Abs"}, {"os", "Getenv"}, {"time", "Now"}}
+	for fi, fm := range forms {
+		pk := pkgs[fi%len(pkgs)]
+		srcA := strings.ReplaceAll(strings.ReplaceAll(fm.a, "PKG", pk.pkg), "MEMBER", pk.member)
+		srcB := "[import(\"" + pk.pkg + "\").zleak ?? \"undef\", typeOf(import(\"" + pk.pkg + "\")." + pk.member + ") == \"string\"]"
+		ea, eb, ec := env.NewEnv(), env.NewEnv(), env.NewEnv()
+		core.Import(ea)
+		core.Import(eb)
+		core.Import(ec)
+		want, err0 := vm.Execute(ec, nil, srcB)
+		_, errA := vm.Execute(ea, nil, srcA)
+		vb, errB := vm.Execute(eb, nil, srcB)
+		res.Add("isolation_checks", 1)
+		if err0 != nil || errB != nil {
+			res.Note(fmt.Sprint("import isolation probe failed: ", err0, errB))
+			continue
+		}
+		_ = errA // whether the write itself is allowed is not the point
+		if irrun.RenderGo(vb) != irrun.RenderGo(want) {
+			res.Violate(common.Violation{Class: "environments-share-bindings/import-result", Case: fm.name + " | A: " + srcA + " || B: " + srcB,
+				Detail: "before A ran a fresh environment read " + irrun.RenderGo(want) + ", after A ran another fresh environment reads " + irrun.RenderGo(vb)})
 		}
 	}
 }
